@@ -225,12 +225,19 @@ pub fn check(c: &Case) -> Outcome {
             if a.status != Status::Success {
                 return Outcome::triv(format!("base-status:{}", status_name(a.status)));
             }
-            if !c.method.implicit() {
+            // "unchanged up to rounding in the error norm": a rounding-level change of the state changes the
+            // error estimate (a difference of O(1) quantities of size tol) by eps/tol relative, the next step
+            // by an eighth to a third of that, and an accept/reject decision when the estimate is that close
+            // to 1.  The step-by-step comparison is therefore made for rtol >= 1e-6 only (flip probability
+            // below 1e-8 per case); tighter tolerances get the tolerance-level comparison of the implicit methods.
+            let strict = !c.method.implicit() && (c.rtol >= 1e-6 || c.method == Meth::RK4);
+            if strict {
+                let shift = sp.len() * (1e-6 + 50.0 * f64::EPSILON / c.rtol.max(1e-12));
                 if b.status != a.status || a.naccpt != b.naccpt || a.nrejct != b.nrejct || a.t.len() != b.t.len() {
                     return Outcome::viol(format!("{}: {} independent copies change the step sequence: accepted/rejected {}/{} vs {}/{}", name, m, a.naccpt, a.nrejct, b.naccpt, b.nrejct));
                 }
                 for (x, y) in a.t.iter().zip(&b.t) {
-                    if (x - y).abs() > 1e-6 * sp.len() {
+                    if (x - y).abs() > shift {
                         return Outcome::viol(format!("{}: {} copies move a step end from {:e} to {:e}", name, m, x, y));
                     }
                 }
